@@ -12,6 +12,7 @@ import (
 	"github.com/streamingfast/substreams/orchestrator/stage"
 	"github.com/streamingfast/substreams/storage/store"
 
+	"verif/dslrt"
 	"verif/ev"
 	"verif/pgen"
 	"verif/sdsl"
@@ -188,3 +189,5 @@ func compareStores(S, L *storeSnap, kinds map[string]sdsl.Kind) *ev.Failure {
 	}
 	return nil
 }
+
+type dslrtBehaviour = dslrt.Behaviour
